@@ -1,6 +1,7 @@
 package main
 
 import (
+	"time"
 	"archive/tar"
 	"bytes"
 	"fmt"
@@ -82,6 +83,32 @@ func runC18(c *runCtx) {
 		a := buf.Bytes()
 		archives = append(archives, a)
 		c.c18Case("writer", a)
+	}
+	// extreme numeric fields: sizes of 8 GiB and more (GNU base-256 / PAX records), huge ids, old and far-future times,
+	// device numbers - headers only (the first block is all that is examined)
+	for i := 0; i < 120; i++ {
+		var buf bytes.Buffer
+		w := tar.NewWriter(&buf)
+		f := formats[i%3]
+		h := &tar.Header{Name: names[r.Intn(6)], Mode: 0o644, Typeflag: tar.TypeReg, Format: f,
+			Size:    []int64{1 << 33, 1<<33 - 1, 1 << 40, 1<<63 - 1, 077777777777, 0100000000000, 12345}[i%7],
+			Uid:     []int{0, 1 << 21, 1<<31 - 1, 2097151, 2097152}[i%5],
+			Gid:     []int{0, 1 << 24, 65534}[i%3],
+			ModTime: time.Unix([]int64{0, -1, 1 << 33, 1 << 36, 1700000000}[i%5], 0)}
+		if i%11 == 0 {
+			h.Typeflag, h.Size, h.Devmajor, h.Devminor = tar.TypeChar, 0, int64(1<<21+i), int64(i)
+		}
+		if f == tar.FormatUSTAR && (h.Size > 077777777777 || h.Uid > 2097151 || h.Gid > 2097151 || h.ModTime.Unix() < 0 || h.ModTime.Unix() > 077777777777 || h.Devmajor > 2097151) {
+			h.Format = tar.FormatPAX
+		}
+		if err := w.WriteHeader(h); err != nil {
+			c.stats.Kinds["writer-refused"]++
+			continue
+		}
+		a := append([]byte{}, buf.Bytes()...) // header block(s) only
+		if len(a) >= 512 {
+			c.c18Case("writer", a)
+		}
 	}
 	// single-byte corruptions of the first block outside the checksum field
 	nvals := 6
